@@ -88,14 +88,19 @@ RECURSIVE DepthAt(_, _)       \* bracket depth after the first i characters
 DepthAt(s, i) == IF i = 0 THEN 0
                  ELSE DepthAt(s, i - 1) + (IF s[i] = OPEN THEN 1 ELSE IF s[i] = CLOSE THEN -1 ELSE 0)
 NeverNegative(s) == \A i \in 0..Len(s) : DepthAt(s, i) >= 0
-Balanced(s) == NeverNegative(s) /\ DepthAt(s, Len(s)) = 0
-Unclosed(s) == NeverNegative(s) /\ DepthAt(s, Len(s)) > 0
+Bump(dep, c) == dep + (IF c = OPEN THEN 1 ELSE IF c = CLOSE THEN -1 ELSE 0)
+RECURSIVE ScanDepth(_, _, _)  \* final depth, or -1 as soon as a prefix has more closing than opening brackets
+ScanDepth(s, i, d) == IF d < 0 THEN -1 ELSE IF i > Len(s) THEN d ELSE ScanDepth(s, i + 1, Bump(d, s[i]))
+Balanced(s) == ScanDepth(s, 1, 0) = 0
+Unclosed(s) == ScanDepth(s, 1, 0) > 0
+\* the one-pass scan is the prefix-depth definition
+DepthLemmaFor(s) == /\ Balanced(s) = (NeverNegative(s) /\ DepthAt(s, Len(s)) = 0)
+                    /\ Unclosed(s) = (NeverNegative(s) /\ DepthAt(s, Len(s)) > 0)
 \* "balanced" -> tokens below ; "unclosed" -> must raise ; "stray" (a closing
 \* bracket before its opening one) -> not decided by the statement
 BracketClass(s) == IF Balanced(s) THEN "balanced" ELSE IF Unclosed(s) THEN "unclosed" ELSE "stray"
 
 Flush(cur, keepEmpty) == IF cur = <<>> /\ ~keepEmpty THEN <<>> ELSE <<cur>>
-Bump(dep, c) == dep + (IF c = OPEN THEN 1 ELSE IF c = CLOSE THEN -1 ELSE 0)
 
 RECURSIVE NTokNS(_, _, _, _, _)
 NTokNS(s, i, D, dep, cur) ==
@@ -169,5 +174,5 @@ NestedSolidOK(s, d) ==
     /\ (OPEN \notin Range(s) /\ CLOSE \notin Range(s)) => ts = Tokenize(s, d, TRUE, TRUE).toks
 
 NestedLemma(A, n, delims) ==
-  \A s \in Strings(A, n) : \A d \in delims : NestedOK(s, d) /\ NestedSolidOK(s, d)
+  \A s \in Strings(A, n) : DepthLemmaFor(s) /\ \A d \in delims : NestedOK(s, d) /\ NestedSolidOK(s, d)
 =============================================================================
